@@ -125,6 +125,108 @@ def gen_impl_consts():
             % ("true" if ok else "false", max_depth, mul, z(right), z(left), z(unreg[0]), z(unreg[1])))
     return write_if_changed(os.path.join(COQ, "Gen", "ImplConsts.v"), text)
 
+_ESC = {"t": 9, "r": 13, "n": 10, "'": 39, '"': 34, "\\": 92, "0": 0}
+def _rust_char(lit):
+    """'x' / '\\t' -> code point, or None"""
+    m = re.fullmatch(r"'(\\.|[^\\'])'", lit.strip())
+    if not m: return None
+    body = m.group(1)
+    if body.startswith("\\"):
+        return _ESC.get(body[1])
+    return ord(body)
+
+def _rust_bool_to_coq(expr):
+    """a boolean expression over `ch`: char literals, ==, <=, ||, &&, parentheses -> Coq bool term over (ch : N), or None"""
+    toks = re.findall(r"'(?:\\.|[^\\'])'|\|\||&&|<=|==|\(|\)|ch|\S", expr)
+    pos = [0]
+    def peek(): return toks[pos[0]] if pos[0] < len(toks) else None
+    def eat():
+        t = peek(); pos[0] += 1; return t
+    def atom():
+        t = peek()
+        if t == "(":
+            eat(); e = disj()
+            if eat() != ")": raise ValueError
+            return "(" + e + ")"
+        a = eat(); op = eat(); b = eat()
+        def val(x):
+            if x == "ch": return "ch"
+            v = _rust_char(x)
+            if v is None: raise ValueError
+            return str(v)
+        if op == "==": return "(%s =? %s)" % (val(a), val(b))
+        if op == "<=": return "(%s <=? %s)" % (val(a), val(b))
+        raise ValueError
+    def conj():
+        e = atom()
+        while peek() == "&&":
+            eat(); e = "(%s && %s)" % (e, atom())
+        return e
+    def disj():
+        e = conj()
+        while peek() == "||":
+            eat(); e = "(%s || %s)" % (e, conj())
+        return e
+    try:
+        e = disj()
+        if pos[0] != len(toks): return None
+        return e
+    except Exception:
+        return None
+
+def _rust_pat_to_coq(pat):
+    """a match pattern on a char: 'a' | 'b' | '0'..='9' (optionally `_x @ ...`) -> Coq bool term, or None"""
+    pat = re.sub(r"^_?\w+\s*@\s*", "", pat.strip())
+    alts = []
+    for alt in re.findall(r"'(?:\\.|[^\\'])'\s*\.\.=\s*'(?:\\.|[^\\'])'|'(?:\\.|[^\\'])'", pat):
+        if "..=" in alt:
+            lo, hi = [x.strip() for x in alt.split("..=")]
+            a, b = _rust_char(lo), _rust_char(hi)
+            if a is None or b is None: return None
+            alts.append("((%d <=? ch) && (ch <=? %d))" % (a, b))
+        else:
+            v = _rust_char(alt)
+            if v is None: return None
+            alts.append("(ch =? %d)" % v)
+    rest = re.sub(r"'(?:\\.|[^\\'])'|\.\.=|\||\s", "", pat)
+    if rest or not alts: return None
+    e = alts[0]
+    for a in alts[1:]:
+        e = "(%s || %s)" % (e, a)
+    return e
+
+def gen_impl_chars():
+    """Gen/ImplChars.v: the character classes of tokenizer.rs translated from its source text on every run: the four
+    is_*_char helpers and the arms of Tokenizer::next (which character starts which kind of token, in which order)."""
+    src = open(os.path.join(REPO, "src", "tokenizer.rs"), encoding="utf-8").read()
+    ok = True
+    defs = []
+    for fn in ("is_digit_char", "is_whitespace_char", "is_delim_char", "is_param_char"):
+        m = re.search(r"fn\s+%s\s*\(ch:\s*char\)\s*->\s*bool\s*\{\s*return\s+(.*?);\s*\}" % fn, src, re.S)
+        e = _rust_bool_to_coq(" ".join(m.group(1).split())) if m else None
+        if e is None:
+            ok = False; e = "false"
+        defs.append("Definition impl_%s (ch : N) : bool := %s." % (fn, e))
+    # the arms of next(): Some((start, PATTERN)) => self.HANDLER(start)
+    body = re.search(r"self\.cur_token\s*=\s*match\s+self\.next_one\(\)\s*\{(.*?)\}\?;", src, re.S)
+    arms = []
+    if body:
+        for m in re.finditer(r"Some\(\(\s*(?:start|_start)\s*,\s*(.*?)\)\)\s*=>\s*self\.(\w+)\(", body.group(1), re.S):
+            arms.append((" ".join(m.group(1).split()).rstrip(",").strip(), m.group(2)))
+    expected = ["special_op_token", "delim_token", "number_token", "string_token", "semicolon_token", "comma_token", "other_token"]
+    if [h for _, h in arms] != expected:
+        ok = False
+        arms = [("'\\0'", h) for h in expected]
+    for pat, h in arms[:-1]:
+        e = _rust_pat_to_coq(pat)
+        if e is None:
+            ok = False; e = "false"
+        defs.append("Definition impl_arm_%s (ch : N) : bool := %s." % (h, e))
+    text = ("(* GENERATED on every run by vlib/build.py from the source text of /repo/src/tokenizer.rs. *)\n"
+            "From Coq Require Import NArith Bool.\nOpen Scope N_scope.\n\n"
+            "Definition chars_recognised : bool := %s.\n%s\n" % ("true" if ok else "false", "\n".join(defs)))
+    return write_if_changed(os.path.join(COQ, "Gen", "ImplChars.v"), text)
+
 def coq_make(target=None, timeout=1500):
     if not os.path.exists(os.path.join(COQ, "Makefile")) or \
        os.path.getmtime(os.path.join(COQ, "_CoqProject")) > os.path.getmtime(os.path.join(COQ, "Makefile")):
@@ -164,6 +266,7 @@ def ensure_built(release=False, log=None):
         gen_impl_table()
         gen_doc_table()
         gen_impl_consts()
+        gen_impl_chars()
         # the model and its extraction first: the correspondence must run even when a proof is broken
         rc, out = coq_make("Extract/Extract.vo")
         if rc != 0:
